@@ -535,6 +535,11 @@ def run_history(spec, actions, drain=True):
     def force(o):
         return d.racy(o, H)
 
+    def force_before_stop(o):
+        # a real daemon thread's body is not C07's business: until it is joined it counts as alive
+        # (what the ledger says), whether or not its loop is still running
+        return isinstance(o, H.RecThread) and o.daemon and o.is_started()
+
     steps = []
     threads_before = set(threading.enumerate())
     for cls in (H.VTimer, H.RecThread, H.FakeSocket, H.FakeHTTPServer):
@@ -544,7 +549,10 @@ def run_history(spec, actions, drain=True):
         with H.patched(world, patches):
             try:
                 d.build()
-                o0 = H.observe(world, d.slots(), d.observe_alive_before_stop)
+                flag = getattr(getattr(d, 's', None), 'stop', None)
+                if hasattr(flag, 'value'):
+                    world.stop_flag = lambda: bool(flag.value)
+                o0 = H.observe(world, d.slots(), d.observe_alive_before_stop, force_before_stop)
                 stopped = False
                 for a in actions:
                     if a[0] == 'stop':
@@ -575,7 +583,7 @@ def run_history(spec, actions, drain=True):
                     if ev is None:
                         continue
                     o = H.observe(world, d.slots(), d.observe_alive_before_stop or stopped,
-                                  force if stopped else None)
+                                  force if stopped else force_before_stop)
                     steps.append('(%s, %s)' % (ev, obs_term(o)))
                 if stopped and drain:
                     # oracle only: every timer chain ends once stopped
@@ -590,7 +598,7 @@ def run_history(spec, actions, drain=True):
                     failures.append(('stop_waits_for_timer',
                                      'a pending timer was joined without cancel: ids %s' % world.main_waits))
                 if world.hung_joins:
-                    failures.append(('join_hangs', 'join() did not return: ids %s' % world.hung_joins))
+                    failures.append(('join_hangs', 'join() can never return: %s' % world.hung_joins))
             finally:
                 try:
                     d.cleanup()
@@ -608,6 +616,11 @@ def run_history(spec, actions, drain=True):
     if extra:
         failures.append(('untracked_thread', 'non-daemon threads left in the process: %d' % len(extra)))
     term = '%s %s [%s]' % (d.case_head(), obs_term(o0), ';\n '.join(steps))
+    if world.slow_joins:
+        # a thread that was told to stop did not end within LONG_JOIN seconds: machine load, not a
+        # verdict.  The observations of this history are unreliable: drop it.
+        return dict(term=None, failures=[], created=len(world.objs), events=len(steps),
+                    note='%s: join of thread(s) %s timed out; history dropped' % (d.sim, world.slow_joins))
     return dict(term=term, failures=[('%s_%s' % (d.sim, k), w) for k, w in failures],
                 created=len(world.objs), events=len(steps))
 
@@ -712,6 +725,9 @@ def correspondence(ctx):
     ctx._c07_failures = []
     for spec, acts in hs:
         r = run_history(spec, acts)
+        if r['term'] is None:
+            ctx.note(r['note'])
+            continue
         cases.append(r['term'])
         ctx.count(spec['sim'] if spec['sim'] in DRIVERS else 'sweep')
         ctx.count('events', r['events'])
@@ -767,6 +783,8 @@ def oracle(ctx):
     for spec, acts in hs:
         r = run_history(spec, acts)
         checked += 1
+        if r.get('note'):
+            ctx.note(r['note'])
         for klass, what in r['failures']:
             found.append((klass, what, spec, acts))
     reals = []
@@ -817,13 +835,13 @@ def run_real(sim, wait_first_packet=False):
             sink = socket.socket()
             sink.bind(('127.0.0.1', 0))
             sink.listen(1)
-            sink.settimeout(5)
+            sink.settimeout(30)
             s = m.System()
             feed_real(s, 'X 1000 0 0 127.0.0.1 %d\n' % sink.getsockname()[1])
             conn, _ = sink.accept()
             feed_real(s, 'resume\n')
             if wait_first_packet:
-                conn.settimeout(5)
+                conn.settimeout(30)
                 conn.recv(65536)
         elif sim == 'mscu':
             import simulators.mscu as m
@@ -853,19 +871,32 @@ def run_real(sim, wait_first_packet=False):
                 result['error'] = type(ex).__name__
         th = threading.Thread(target=do_stop, daemon=True)
         th.start()
-        th.join(20)
+        th.join(60)
         if th.is_alive():
-            failures.append(('join_hangs', 'system_stop did not return within 20 s (real threads)'))
+            # real time: cannot tell a hang from a loaded machine.  Hangs are decided by the virtual
+            # runs (deterministically); here it is a note.
+            raise TimeoutError('system_stop did not return within 60 s of real time')
         elif 'error' in result:
             failures.append(('stop_raises', 'system_stop raised %s (real threads)' % result['error']))
         elif result.get('reply') != ACK:
             failures.append(('stop_reply', 'system_stop returned %r' % (result.get('reply'),)))
         if not th.is_alive():
             alive = [t for t in threading.enumerate() if t not in before and t is not th and not t.daemon]
-            if alive:
+            # Only a timer that is still *armed* (neither cancelled nor fired) is evidence that does
+            # not depend on scheduling.  A cancelled Timer's thread (setup cancels the previous one
+            # without joining it) or a thread that is on its way out needs CPU time to exit: wait for
+            # it; if that takes too long it is a note, not a verdict.
+            armed = [t for t in alive if isinstance(t, threading.Timer) and not t.finished.is_set()]
+            if armed:
                 failures.append(('nondaemon_alive_after_stop',
-                                 'non-daemon threads alive after system_stop (real threads): %s'
-                                 % sorted(type(t).__name__ for t in alive)))
+                                 'non-daemon threads alive after system_stop (real threads): %d armed Timer(s)'
+                                 % len(armed)))
+            else:
+                for t in alive:
+                    t.join(60)
+                    if t.is_alive():
+                        raise TimeoutError('a %s thread that was cancelled / told to stop did not exit '
+                                           'within 60 s of real time' % type(t).__name__)
             if sim == 'totalpower' and s.data_socket is not None and s.data_socket.fileno() != -1:
                 failures.append(('socket_open_after_stop', 'data_socket still open after system_stop (real socket)'))
     finally:
